@@ -160,7 +160,101 @@ int main()
     S.fn("s_beginsWith", variant="short", pre_call=pre_short, requires=[SINV(A), SINV(Bs)], noalias=True, assigns=["verif_mm"], unwind=6, inline=["s_longestBeginningMatch"], replay_native=PREFIX_REPLAY % dict(a="inputString", b="startsWithString"), ensures={
         "true_only_for_a_prefix": "IMP(RET, $1->n <= $0->n && IMP(verif_gi < $1->n, $0->b[verif_gi] == $1->b[verif_gi]))",
         "exactly_the_prefix_relation": "RET == (" + " && ".join(["$1->n <= $0->n"] + ["(%d >= $1->n || $0->b[%d] == $1->b[%d])" % (k, k, k) for k in range(4)]) + ")"})
-    return [U, S]
+    # ---- FileName: BOUNDED exact check against specification functions written from the property (include/c18_filename_spec.h)
+    import os as _os
+    SPEC_H = _os.path.join(_os.path.dirname(_os.path.dirname(_os.path.abspath(__file__))), "include", "c18_filename_spec.h")
+    NA, NB2 = (8, 4) if _os.environ.get("VERIF_TIER_EFFECTIVE") == "thorough" else (6, 3)
+    FCAP = NA + NB2 + 2          # longest string any operation can produce (left + '/' + right), plus one
+    F = Unit("c18_filename", "units/c18_filename.cpp", helpers="#define RS_CAP %d\n" % FCAP + open(SPEC_H).read(), opts=dict(tracked_vec=True, tracked_str=True, bounded_str=FCAP))
+    def fharness(o, tag, nmax):
+        return ("  unsigned long in_n%(t)s = nondet_ulong(); __CPROVER_assume(in_n%(t)s <= %(m)d);\n"
+                "  %(o)s.n = in_n%(t)s; %(o)s.cap = %(c)d;\n" % dict(o=o, t=tag, m=nmax, c=FCAP)
+                + "".join("  char in_%s%d = nondet_char(); %s.b[%d] = in_%s%d;\n" % (tag, k, o, k, tag, k) for k in range(nmax)))
+    def FINV(v, nmax):
+        return "(%(v)s.n <= %(m)d)" % dict(v=v, m=nmax)
+    RS = lambda v: "rs_make(%s.b, %s.n)" % (v, v)
+    SELF = "$0->filename"
+    REPLAY = """
+#define RS_CAP %(cap)d
+#include "%(spec)s"
+int main()
+{
+  const char ca[] = {%(ca)s}, cb[] = {%(cb)s};
+  std::string a(ca, (size_t)IN_in_na), b(cb, (size_t)IN_in_nb);
+  rkcommon::FileName f, g; f.filename = a; g.filename = b;
+  std::string got = %(call)s;
+  rs want = %(want)s;
+  bool ok = rs_same(want, got.data(), got.size());
+  printf("%(what)s of \\"%%s\\"%(arg)s: got \\"%%s\\", the property's decomposition gives \\"%%.*s\\"\\n", a.c_str(), %(argv)s got.c_str(), (int)want.n, want.c);
+  printf("REPLAY RESULT: %%s\\n", ok ? "not reproduced" : "violation reproduced on real code");
+  return ok ? 0 : 1;
+}
+"""
+    def replay(call, want, what, witharg=False):
+        return REPLAY % dict(ca=", ".join("IN_in_a%d" % k for k in range(NA)), cb=", ".join("IN_in_b%d" % k for k in range(NB2)), cap=FCAP, spec=SPEC_H, call=call, want=want, what=what, arg=(' with \\"%s\\"' if witharg else ""), argv=("b.c_str()," if witharg else ""))
+    A_ = "rs_make(a.data(), a.size())"
+    B_ = "rs_make(b.data(), b.size())"
+    one = dict(pre_call=fharness("o_@0.filename", "a", NA), requires=[FINV(SELF, NA), "__verif_exc == 0"], assigns=["__verif_exc"], unwind=FCAP + 2, timeout=600, inline=["fn_ctor_str"], solver=["--sat-solver", "cadical"])
+    for (nm, spec, call) in (("fn_path", "spec_path", "f.path()"), ("fn_base", "spec_base", "f.base()"), ("fn_ext", "spec_ext", "f.ext()"), ("fn_name", "spec_name", "f.name()")):
+        F.fn(nm, replay_native=replay(call, "%s(%s)" % (spec, A_), nm[3:] + "()"), ensures={
+            nm[3:] + "_is_the_decomposition_the_property_states": "__verif_exc == 0 && rs_same(%s(%s), RET.b, RET.n)" % (spec, RS(SELF))}, **one)
+    F.fn("fn_dropExt", replay_native=replay("f.dropExt().filename", "spec_dropExt(%s)" % A_, "dropExt()"), ensures={
+        "dropExt_removes_the_extension_of_the_last_component_only": "__verif_exc == 0 && rs_same(spec_dropExt(%s), RET.filename.b, RET.filename.n)" % RS(SELF)}, **one)
+    two = dict(one, pre_call=fharness("o_@0.filename", "a", NA) + fharness("o_@1", "b", NB2), requires=[FINV(SELF, NA), FINV("(*$1)", NB2), "__verif_exc == 0"], noalias=True)
+    F.fn("fn_setExt", replay_native=replay("f.setExt(b).filename", "spec_setExt(%s, %s)" % (A_, B_), "setExt()", True), ensures={
+        "setExt_replaces_the_extension_of_the_last_component": "__verif_exc == 0 && rs_same(spec_setExt(%s, %s), RET.filename.b, RET.filename.n)" % (RS(SELF), RS("(*$1)"))}, **two)
+    F.fn("fn_addExt", replay_native=replay("f.addExt(b).filename", "spec_addExt(%s, %s)" % (A_, B_), "addExt()", True), ensures={
+        "addExt_appends": "__verif_exc == 0 && rs_same(spec_addExt(%s, %s), RET.filename.b, RET.filename.n)" % (RS(SELF), RS("(*$1)"))}, **two)
+    twof = dict(one, pre_call=fharness("o_@0.filename", "a", NA) + fharness("o_@1.filename", "b", NB2), requires=[FINV(SELF, NA), FINV("$1->filename", NB2), "__verif_exc == 0"], noalias=True)
+    F.fn("fn_plus", replay_native=replay("(f + g).filename", "spec_plus(%s, %s)" % (A_, B_), "operator+", True), ensures={
+        "plus_joins_with_one_separator_and_an_empty_left_side_is_neutral": "__verif_exc == 0 && rs_same(spec_plus(%s, %s), RET.filename.b, RET.filename.n)" % (RS(SELF), RS("$1->filename"))}, **twof)
+    F.fn("fn_ctor_str", pre_call=fharness("o_@1", "a", NA), requires=[FINV("(*$1)", NA), "__verif_exc == 0"], assigns=["*$0", "__verif_exc"], noalias=True, unwind=FCAP + 2, timeout=600, solver=["--sat-solver", "cadical"],
+         replay_native=replay("rkcommon::FileName(a).filename", "rs_norm(%s)" % A_, "FileName(string)"), ensures={
+        "constructor_normalises_separators_and_drops_trailing_ones": "__verif_exc == 0 && rs_same(rs_norm(%s), $0->filename.b, $0->filename.n)" % RS("(*$1)"),
+        "constructed_name_fits": "$0->filename.n <= %d" % FCAP})
+    F.fn("fn_eq", replay_native=None, ensures={"equality_is_string_equality": "RET == (rs_same(%s, $1->filename.b, $1->filename.n) != 0)" % RS(SELF)}, **twof)
+    # ---- tokenize / split(delimiter set): BOUNDED exact check against a specification function (include/c18_tokens_spec.h)
+    TSPEC_H = _os.path.join(_os.path.dirname(SPEC_H), "c18_tokens_spec.h")
+    TN = 7 if _os.environ.get("VERIF_TIER_EFFECTIVE") == "thorough" else 5      # characters in the input string
+    TCAP, TTOK = TN + 2, (TN + 1) // 2 + 2
+    thelp = ("#define TS_CAP %d\n#define TS_MAXTOK %d\n#define TS_PTR(v, k) ((v)[k].b)\n#define TS_LEN(v, k) ((v)[k].n)\n" % (TCAP, TTOK) + open(TSPEC_H).read()
+             + "static _Bool toks_ok(toks want, std_basic_string_char *v, unsigned long cnt) { _Bool res; TOKS_SAME(res, want, v, cnt); return res; }\n")
+    T = Unit("c18_tokens", "units/c18_tokens.cpp", helpers=thelp, opts=dict(tracked_vec=True, tracked_str=True, bounded_str=TCAP, bounded_vec=TTOK))
+    def sh(o, tag, nmax):
+        return ("  unsigned long in_n%(t)s = nondet_ulong(); __CPROVER_assume(in_n%(t)s <= %(m)d); %(o)s.n = in_n%(t)s; %(o)s.cap = %(c)d;\n" % dict(o=o, t=tag, m=nmax, c=TCAP)
+                + "".join("  char in_%s%d = nondet_char(); %s.b[%d] = in_%s%d;\n" % (tag, k, o, k, tag, k) for k in range(nmax)))
+    TREPLAY = """
+#define TS_CAP %(cap)d
+#define TS_MAXTOK %(tok)d
+#define TS_PTR(v, k) ((v)[k].data())
+#define TS_LEN(v, k) ((v)[k].size())
+#include "%(spec)s"
+int main()
+{
+  const char ca[] = {%(ca)s, 0}, cb[] = {%(cb)s, 0};
+  std::string a(ca, (size_t)IN_in_na), d(cb, (size_t)(%(nb)s));
+  std::vector<std::string> got;
+  %(call)s
+  toks want = spec_tokens(a.data(), a.size(), d.data(), d.size(), %(keep)s);
+  bool ok; TOKS_SAME(ok, want, got, got.size());
+  printf("%(what)s of \\"%%s\\" on \\"%%s\\": got %%lu token(s):", a.c_str(), d.c_str(), (unsigned long)got.size());
+  for (auto &t : got) printf(" [%%s]", t.c_str());
+  printf("; the property gives %%lu:", want.n);
+  for (unsigned long k = 0; k < want.n && k < TS_MAXTOK; k++) printf(" [%%.*s]", (int)want.t[k].n, want.t[k].c);
+  printf("\\nREPLAY RESULT: %%s\\n", ok ? "not reproduced" : "violation reproduced on real code");
+  return ok ? 0 : 1;
+}
+"""
+    CA = ", ".join("IN_in_a%d" % k for k in range(TN))
+    T.fn("t_tokenize", pre_call=sh("o_@0", "a", TN) + "  o_@2.n = 0; o_@2.cap = %d;\n" % TTOK, noalias=True, requires=["$0->n <= %d" % TN, "$2->n == 0", "__verif_exc == 0"], assigns=["*$2", "__verif_exc"],
+         unwind=TCAP + 2, timeout=600, solver=["--sat-solver", "cadical"],
+         replay_native=TREPLAY % dict(cap=TCAP, tok=TTOK, spec=TSPEC_H, ca=CA, cb="(char)IN_in_delim", nb="1", keep="0", what="tokenize", call="rkcommon::utility::tokenize(a, d[0], got);"),
+         ensures={"tokenize_appends_exactly_the_non_empty_tokens_in_order": "__verif_exc == 0 && toks_ok(spec_tokens($0->b, $0->n, &$1, 1, 0), $2->b, $2->n)"})
+    T.fn("t_split_set", pre_call=sh("o_@0", "a", TN) + sh("o_@1", "b", 2), noalias=True, requires=["$0->n <= %d" % TN, "$1->n <= 2", "__verif_exc == 0"], assigns=["__verif_exc"],
+         unwind=TCAP + 2, timeout=600, solver=["--sat-solver", "cadical"],
+         replay_native=TREPLAY % dict(cap=TCAP, tok=TTOK, spec=TSPEC_H, ca=CA, cb="IN_in_b0, IN_in_b1", nb="IN_in_nb", keep="(int)IN_in_keepDelim", what="split", call="got = rkcommon::utility::split(a, d, (bool)IN_in_keepDelim);"),
+         ensures={"split_returns_exactly_the_non_empty_tokens_in_order": "__verif_exc == 0 && toks_ok(spec_tokens($0->b, $0->n, $1->b, $1->n, $2), RET.b, RET.n)"})
+    return [U, S, F, T]
     reset = "  g_calls = 0; g_kind = 0; g_suffix = 0;\n"
     INR = "(dabs($0) >= 1e-15 && dabs($0) < 1e21)"
     U.fn("x_prettyDouble", pre_call=reset, requires=["g_calls == 0", "__verif_exc == 0"], assigns=GA + ["__verif_exc"], solver=["--sat-solver", "cadical"], timeout=900, ensures={
@@ -172,10 +266,10 @@ int main()
 
 META = dict(
     level="other",
-    level_text="PARTIAL coverage of the statement. (1) removeArgs is extracted from /repo and proved by CBMC (function contract + loop contract, any argc): the count drops by howMany, arguments before `where` are untouched and every later argument moves down by howMany in order (ghost positions). (2) prettyDouble and prettyNumber are extracted and decided by the math back end (z3 over the reals, float literals at their exact binary32 values, snprintf as a recording interface model): for every magnitude in [1e-15, 1e21) (prettyNumber: every size_t) the mantissa handed to the formatter lies in [0.95, 1000.05) -- i.e. prints as 1.0 .. 1000.0 -- and mantissa x 10^(suffix) equals the input within 1e-6 relative; plain numbers are printed unscaled. (3) longestBeginningMatch and beginsWith are extracted and proved by CBMC on a value-tracking std::string model for strings of ANY length up to 2^40: the result of longestBeginningMatch is a common prefix (ghost position), is the longest one, and beginsWith is true only for prefixes and true for every prefix; the same two functions are also checked EXACTLY (full prefix relation, exact common-prefix length) for strings of at most 4 characters with bounded unwinding, which yields natively replayable counterexamples.",
-    level_note="NOT covered (unverified): split (both forms), lowerCase/upperCase, tokenize, PseudoURL parsing/getValue/hasParam, every FileName operation, ArgumentList/ArgumentsParser::parseAndRemove: they are built on std::stringstream/getline, find_first_of/substr/rfind and std::vector<std::string>::erase for which this framework has no model. Floating point is treated as real arithmetic in (2) (rounding of the division and of %.1f is not modelled). std::string is a value-tracking MODEL; std::mismatch/std::equal/std::min are reference models; the string range constructor is an assumed contract instantiated at ghost positions. removeArgs is proved under its natural precondition 0 <= where, 0 <= howMany, where + howMany <= ac.",
+    level_text="PARTIAL coverage of the statement; items (4) and (5) are BOUNDED exact checks. (4) FileName: the string constructor, path, base, ext, name, dropExt, setExt, addExt, operator+ and == are extracted and checked with CBMC (bounded unwinding) against specification functions written from the property (include/c18_filename_spec.h: dot and separator of the LAST component, normalisation of separators) for every name of at most 6 characters and every extension / right operand of at most 3 (8 / 4 thorough), arbitrary bytes. (5) tokenize and split(delimiter set, keepDelim) are checked the same way against 'exactly the maximal runs of non-delimiter characters, in order, one-character tokens included' for every string of at most 5 characters (7 thorough) and every delimiter (set of at most 2). (1) removeArgs is extracted from /repo and proved by CBMC (function contract + loop contract, any argc): the count drops by howMany, arguments before `where` are untouched and every later argument moves down by howMany in order (ghost positions). (2) prettyDouble and prettyNumber are extracted and decided by the math back end (z3 over the reals, float literals at their exact binary32 values, snprintf as a recording interface model): for every magnitude in [1e-15, 1e21) (prettyNumber: every size_t) the mantissa handed to the formatter lies in [0.95, 1000.05) -- i.e. prints as 1.0 .. 1000.0 -- and mantissa x 10^(suffix) equals the input within 1e-6 relative; plain numbers are printed unscaled. (3) longestBeginningMatch and beginsWith are extracted and proved by CBMC on a value-tracking std::string model for strings of ANY length up to 2^40: the result of longestBeginningMatch is a common prefix (ghost position), is the longest one, and beginsWith is true only for prefixes and true for every prefix; the same two functions are also checked EXACTLY (full prefix relation, exact common-prefix length) for strings of at most 4 characters with bounded unwinding, which yields natively replayable counterexamples.",
+    level_note="NOT covered (unverified): split on a single character (std::getline on a stringstream), lowerCase/upperCase, the PseudoURL constructor/getValue/hasParam on top of tokenize, FileName::operator-/canonical/homeFolder, ArgumentList/ArgumentsParser::parseAndRemove. The FileName and tokenize/split checks are BOUNDED (string lengths above; std::string and std::vector are bounded CODE models with inline storage, loops unwound with unwinding assertions) -- not proofs for longer strings. Floating point is treated as real arithmetic in (2) (rounding of the division and of %.1f is not modelled). std::string is a value-tracking MODEL; std::mismatch/std::equal/std::min are reference models; the string range constructor is an assumed contract instantiated at ghost positions. removeArgs is proved under its natural precondition 0 <= where, 0 <= howMany, where + howMany <= ac.",
     explanation="mixed: CBMC function/loop contracts (removeArgs, prefix helpers), z3 real arithmetic VCs (number formatting), bounded exact variants for replay",
-    assumptions=["snprintf recording interface model", "floating point treated as real arithmetic (prettyDouble/prettyNumber)", "std::string value-tracking model; std::mismatch/std::equal/std::min reference models", "string range constructor: assumed contract at ghost positions", "strings shorter than 2^40", "allocation never fails"],
-    bounded=["s_beginsWith#short, s_longestBeginningMatch#short: strings of at most 4 characters, unwind 6 (exact specification; the unbounded variants carry the proof)"],
-    unverified=["split", "lowerCase/upperCase", "tokenize / PseudoURL", "FileName", "ArgumentList / parseAndRemove", "decimal rendering of %.1f"],
+    assumptions=["bounded std::string / std::vector code models (FileName, tokenize, split)", "snprintf recording interface model", "floating point treated as real arithmetic (prettyDouble/prettyNumber)", "std::string value-tracking model; std::mismatch/std::equal/std::min reference models", "string range constructor: assumed contract at ghost positions", "strings shorter than 2^40", "allocation never fails"],
+    bounded=["FileName operations: names of at most 6 characters, extensions / right operands of at most 3 (8 / 4 thorough), unwind capacity+2", "tokenize / split(set): strings of at most 5 characters (7 thorough), delimiter sets of at most 2 characters, unwind capacity+2", "s_beginsWith#short, s_longestBeginningMatch#short: strings of at most 4 characters, unwind 6 (exact specification; the unbounded variants carry the proof)"],
+    unverified=["split(string, char) via getline", "lowerCase/upperCase", "PseudoURL constructor / getValue / hasParam", "FileName::operator- / canonical / homeFolder", "ArgumentList / parseAndRemove", "decimal rendering of %.1f"],
 )
